@@ -1,11 +1,106 @@
-import ChythonModel.Model.C03Front
+import ChythonModel.Proofs.C03Front
 /-!
 # C03 — SMILES reader builds exactly the molecule the text denotes, rejects the rest
+
+The theorems are about the functions the driver `Drivers/C03.lean` runs: `tokenizeRaw` (`_tokenize`), `smilesTokenize`
+(`smiles_tokenize`), `parse` (`parser`), `smiles` (`smiles()` with default arguments), over tables regenerated from
+/repo (`Gen/C03Tables.lean`).  Python operations that can raise something other than the library's ValueError
+family (`list.pop()` on an empty list, `list[i]`, `dict[k]`, `''.join(None)` …) are `Err.crash` in the model, so
+"rejects with the library's error and never with an unrelated exception" is the statement that no input reaches
+an `Err.crash`.
 -/
 namespace ChythonModel.Props.C03
-open ChythonModel.Model.C03 ChythonModel.Gen.C03
+open ChythonModel.Model.C03 ChythonModel.Gen.C03 ChythonModel.Proofs.C03
 
-/-- every charge spelling of the table is within the range the element constructor accepts -/
+/-! ## clause "never … an unrelated exception" -/
+
+/-- Full statement: for every input string, `smiles()` either builds something or raises an error of the library's
+    ValueError family. (Before the `fix:` commits listed in known_findings/C03.json this was false: `(`, `;`, `;@`,
+    `C-;@C`, `C!~C`, `C |^1:5|`, `C>>C |^1:7|` were counterexamples.) -/
+def NoCrash : Prop := ∀ (s : Str) (k : String), smiles s ≠ .error (.crash k)
+
+theorem no_crash : NoCrash := fun s k => smiles_nocrash s k
+
+/-- hypotheses-are-satisfiable examples: an accepted string and a rejected one -/
+example : ∃ r, smiles [67, 49, 67, 67, 49] = .ok r := ⟨_, rfl⟩                       -- C1CC1
+example : smiles [40] = .error (.lib "IncorrectSmiles" "not atom started") := rfl     -- (
+
+/-- `_tokenize` (shared with the SMARTS reader): every string, the empty one included, yields a token list whose
+    (type, value) pairs have one of the twelve shapes the rest of the reader understands, or a library error -/
+theorem tokenizer_total (s : Str) :
+    (∃ l, tokenizeRaw s = .ok l ∧ ∀ t ∈ l, shaped t = true) ∨ (∃ c m, tokenizeRaw s = .error (.lib c m)) := by
+  have h := tokenizeRaw_good s
+  cases hk : tokenizeRaw s with
+  | ok l => rw [hk] at h; exact Or.inl ⟨l, rfl, h⟩
+  | error e =>
+    rw [hk] at h
+    cases e with
+    | lib c m => exact Or.inr ⟨c, m, rfl⟩
+    | crash k => cases h
+
+/-- a non-empty string is never tokenized to the empty list (which `parser` would answer with IndexError) -/
+theorem tokenizer_nonempty (s : Str) (l : List RTok) (hs : s ≠ []) (h : tokenizeRaw s = .ok l) : l ≠ [] :=
+  tokenizeRaw_nonempty s l hs h
+
+/-- `smiles_tokenize` passes only atoms, bonds, parentheses, dots, closure numbers and direction marks on to the
+    parser; query tokens (bond lists, ring-bond marks) are rejected as SMARTS -/
+theorem smiles_tokenize_total (s : Str) (hs : s ≠ []) :
+    (∃ l, smilesTokenize s = .ok l ∧ l ≠ [] ∧ ∀ x ∈ l, noOther x = true) ∨
+    (∃ c m, smilesTokenize s = .error (.lib c m)) := by
+  rcases smilesTokenize_good s hs with h | ⟨e, he, hc⟩
+  · exact Or.inl h
+  · cases e with
+    | lib c m => exact Or.inr ⟨c, m, he⟩
+    | crash k => cases hc
+
+/-- the bracket-atom parser can only fail with IncorrectSmiles -/
+theorem atom_parse_total (s : Str) (k : String) : atomParse s ≠ .error (.crash k) := atomParse_nocrash s k
+
+/-! ## `parser`: well-formedness of what it returns -/
+
+/-- for every token list `smiles_tokenize` can produce: if `parser` accepts, at least one atom was read, every bond
+    joins two existing atoms, the branch stack and the ring-closure table are empty and no bond is pending -/
+theorem parser_wf (strong : Bool) (toks : List Tok) (st : PState) (hne : toks ≠ [])
+    (hn : ∀ t ∈ toks, noOther t = true) (h : parse strong toks = .ok st) :
+    0 < st.atoms.length ∧ st.types.length = st.atoms.length ∧ st.atomNum = st.atoms.length ∧
+    (∀ b ∈ st.bonds, b.1 < st.atoms.length ∧ b.2.1 < st.atoms.length) ∧
+    st.stack = [] ∧ st.cycles = [] ∧ st.previous = none := by
+  have := parse_good strong toks hne hn
+  rw [h] at this
+  obtain ⟨inv, h1, h2, h3⟩ := this
+  exact ⟨inv.pos, inv.types, inv.num, inv.bonds, h1, h2, h3⟩
+
+example : ∃ st, parse false [.atom 0 { element := [67] }, .cyc 1, .atom 0 { element := [67] }, .cyc 1] = .ok st :=
+  ⟨_, rfl⟩
+
+/-- `parser` itself cannot raise anything but IncorrectSmiles on such token lists (either `strong_cycle` mode) -/
+theorem parser_no_crash (strong : Bool) (toks : List Tok) (hne : toks ≠ []) (hn : ∀ t ∈ toks, noOther t = true)
+    (k : String) : parse strong toks ≠ .error (.crash k) := by
+  have := parse_good strong toks hne hn
+  intro h
+  rw [h] at this
+  cases this
+
+/-! ## CXSMILES / reaction front end -/
+
+/-- fragment contraction of a reaction never indexes outside the molecule lists and never produces an empty
+    molecule string, whatever fragment groups the CXSMILES block names -/
+theorem contraction_safe (R G P : List Str) (hR : ∀ x ∈ R, x ≠ []) (hG : ∀ x ∈ G, x ≠ []) (hP : ∀ x ∈ P, x ≠ [])
+    (ct : List (List Nat)) (hct : ∀ c ∈ ct, c ≠ []) :
+    ∃ R' G' P', applyContract R G P ct = .ok (R', G', P') ∧ (∀ x ∈ R', x ≠ []) ∧ (∀ x ∈ G', x ≠ []) ∧
+      (∀ x ∈ P', x ≠ []) := applyContract_good R G P hR hG hP ct hct
+
+example : applyContract [[67], [67]] [] [] [[0, 1]] = .ok ([[67, 46, 67]], [], []) := rfl   -- C.C>> |f:0.1|
+
+/-! ## regenerated tables (G + P) -/
+
+/-- every charge spelling of `charge_dict` is within the range the element constructor accepts -/
 theorem charge_table_in_range : ∀ p ∈ chargeDict, -4 ≤ p.2 ∧ p.2 ≤ 4 := by decide
+
+/-- the bond symbols `_tokenize` dispatches on are exactly the keys of `replace_dict` (no KeyError) -/
+theorem bond_chars_are_keys : ∀ c ∈ bondChars, (lookupNat c replaceDict).isSome = true := by decide
+
+/-- `atom_re` has six capture groups and the element group is mandatory (what `_atom_parse` unpacks) -/
+theorem atom_re_shape : atomRe.length = 6 ∧ (atomRe[1]?).map (fun g => g.1) = some false := by decide
 
 end ChythonModel.Props.C03
